@@ -598,6 +598,12 @@ thread_local! {
     pub static EXACT_CFG_LEN: std::cell::Cell<bool> = const { std::cell::Cell::new(false) };
 }
 
+thread_local! {
+    /// add duplicate notify / device-config capabilities AFTER the standard ones (multiplier + 2,
+    /// window 8 bytes longer): only the first capability of each type counts
+    pub static DUP_CAPS: std::cell::Cell<bool> = const { std::cell::Cell::new(false) };
+}
+
 /// A standard, well-formed virtio-pci function: all structures in a 64-bit BAR 4 (like QEMU).
 /// Returns the device state; the function is installed on the bus at `bdf` and its BAR mapped.
 pub fn install_standard(bdf: (u8, u8, u8), dev_type: u32, dev: VirtioPciDev, cfg_len: usize, with_devcfg: bool) -> Rc<RefCell<VirtioPciDev>> {
@@ -623,6 +629,12 @@ pub fn install_standard(bdf: (u8, u8, u8), dev_type: u32, dev: VirtioPciDev, cfg
     ];
     if with_devcfg {
         caps.insert(3, (0x98, virtio_cap(16, 4, 4, 0x2000, cfg_words as u32, None)));
+    }
+    if DUP_CAPS.with(|d| d.get()) {
+        caps.push((0xb0, virtio_cap(20, 2, 4, 0x3000, notify_len as u32, Some(mult + 2))));
+        if with_devcfg {
+            caps.push((0xc8, virtio_cap(16, 4, 4, 0x2000, cfg_words as u32 + 8, None)));
+        }
     }
     f.set_caps(caps);
     with_bus(|b| b.functions.insert(bdf, f));
